@@ -5,9 +5,9 @@
 # 2. keep it under /verif/seeded/<PID>-<mN>/
 # 3. apply to /repo, run the quick checks, undo; record which checks catch it
 PID=$1; M=$2; shift 2
-WT=/tmp/wt-$PID
+WT=${WTPREFIX:-/tmp/wt}-$PID
 SRC=$WT/SEED/$M
-OUT=/verif/seeded/$PID-$M
+OUT=/verif/seeded/$PID-${IDPREFIX}$M
 [ -f $SRC/patch.diff ] || { echo "no patch in $SRC"; exit 2; }
 cd $WT || exit 2
 git checkout -q -- asynciojobs
@@ -40,13 +40,13 @@ cat $OUT/checks.txt
 python3 - "$PID" "$M" "$TESTS" "$D1" "$D0" <<'PY'
 import json,sys,os
 pid,m,tests,d1,d0=sys.argv[1:6]
-out='/verif/seeded/%s-%s'%(pid,m)
+out='/verif/seeded/%s-%s%s'%(pid,os.environ.get('IDPREFIX',''),m)
 try: a=json.load(open(out+'/meta.agent.json'))
 except Exception: a={}
 checks=open(out+'/checks.txt').read().splitlines()
-meta={'property':pid,'id':'%s-%s'%(pid,m),'summary':a.get('summary'),'needs':a.get('needs'),'files':a.get('files'),
+meta={'property':pid,'id':'%s-%s%s'%(pid,os.environ.get('IDPREFIX',''),m),'summary':a.get('summary'),'needs':a.get('needs'),'files':a.get('files'),
  'confirmed':{'suite_with_change':tests,'demo_exit_with_change':int(d1),'demo_exit_without_change':int(d0),
-   'how':'tools/seed_confirm.sh: patch applied in scratch worktree /tmp/wt-%s, full pytest suite, demo.py with and without the change'%pid},
+   'how':'tools/seed_confirm.sh: patch applied in scratch worktree %s-%s, full pytest suite, demo.py with and without the change'%(os.environ.get('WTPREFIX','/tmp/wt'),pid)},
  'checks_run_against_it':checks}
 json.dump(meta,open(out+'/meta.json','w'),indent=1)
 os.remove(out+'/meta.agent.json') if os.path.exists(out+'/meta.agent.json') else None
